@@ -708,7 +708,8 @@ class Run:
             if use_kernel:
                 if cfg.get("nest") is not None:
                     # all tasks on one thread, each started inside a yield point of its predecessor (re-entrant caller)
-                    k = NestKernel([1 + (int(r) % max(1, self.est_per_task[j] - 1)) for j, r in enumerate(cfg["nest"]) if j < len(states)], step_cap=2 * est + 16)
+                    k = NestKernel([int(r) if cfg.get("nest_exact") else 1 + (int(r) % max(1, self.est_per_task[j] - 1)) for j, r in enumerate(cfg["nest"]) if j < len(states)],
+                                   step_cap=2 * est + 16)
                 else:
                     k = Kernel(policy=cfg.get("policy", "uniform"), rng=random.Random(cfg.get("sched_seed", 0)),
                                schedule=self.explicit, step_cap=2 * est + 16)
